@@ -144,7 +144,12 @@ def run_case(case: dict[str, Any]) -> dict[str, Any]:
                     viol.append({'mech': 'resumed-twice', 'msg': f"{h} completed {len(finals)} times for {uid} within the operator process {name} "
                                  f"(at t={[c['t'] for c in finals]}; {len(relists)} re-listings in that process)", 'witness': None})
                 if not listed and calls:
-                    viol.append({'mech': 'resume-on-new-object', 'msg': f"{h} ran for {uid}, which did not exist when {name} started (first seen through the watch)", 'witness': None})
+                    # first seen in a RE-listing (it was created during a gap of the watch stream)? kopf marks every object first met in a listing as
+                    # "noticed by listing", not only those of the first listing of the process
+                    in_relist = [r for r in relists if r.g < calls[0]['g'] and any(v['rv'] <= int(r.result_rv) and v['type'] != 'DELETED' for v in w.history[uid])
+                                 and not any(t <= r.t and u == uid for st in w.sim.kube.streams if st.client.name == name and st.plural == 'kopfexamples' for t, _, u, _ in st.delivered)]
+                    viol.append({'mech': 'resume-on-object-first-seen-in-relisting' if in_relist else 'resume-on-new-object',
+                                 'msg': f"{h} ran for {uid}, which did not exist when {name} started (first seen {'in a re-listing after a broken stream' if in_relist else 'through the watch'})", 'witness': None})
                 # (an object met at start-up under deletion and never handled before is a deletion with the opted-in resume handlers mixed in:
                 #  the statement is silent about it; only a plain creation mistaken for a resuming is a violation)
                 if listed and not handled and calls and not any(op_created_base(w, ix, uid, c) for c in calls) and not all(c.get('deleting') for c in calls):
